@@ -242,3 +242,181 @@ def run(check, ctx):
         check.ob("K", "K|exposed.nonce." + m, ok, mod.path, stores[0].lineno if stores else init.lineno,
                  extracted="; ".join("self.nonce = " + norm(s.value) for s in stores) or "no store",
                  expected="self.nonce = _copy_bytes(None, None, nonce): the whole nonce parameter, copied")
+
+
+# ---------------------------------------------------------------------------------------------------------------
+# AES Key Wrap (SP 800-38F / RFC 3394) and Key Wrap with Padding (RFC 5649): the wrapping functions are Python on top
+# of a 128-bit ECB cipher object; the cipher is replaced by a fixed bijection of the checker (a 4-round Feistel
+# network, so that the inverse exists) and the result compared byte for byte with RFC 3394 written in its index form
+# (A, R[1..n], t = n*j + i), which shares nothing with the rotating-queue form of the repository.
+def _toy_E(block, inv=False):
+    import hashlib
+    L, R = bytes(block[:8]), bytes(block[8:])
+    rounds = range(4)
+    if inv:
+        for r in reversed(rounds):
+            L, R = bytes(x ^ y for x, y in zip(R, hashlib.sha256(b"F%d" % r + L).digest()[:8])), L
+        return L + R
+    for r in rounds:
+        L, R = R, bytes(x ^ y for x, y in zip(L, hashlib.sha256(b"F%d" % r + R).digest()[:8]))
+    return L + R
+
+
+def ref_kw_wrap(P, iv):
+    n = len(P) // 8
+    A = iv
+    R = [None] + [P[8 * i: 8 * i + 8] for i in range(n)]
+    for j in range(6):
+        for i in range(1, n + 1):
+            B = _toy_E(A + R[i])
+            t = n * j + i
+            A = bytes(x ^ y for x, y in zip(B[:8], t.to_bytes(8, "big")))
+            R[i] = B[8:]
+    return A + b"".join(R[1:])
+
+
+def ref_kw_unwrap(C):
+    n = len(C) // 8 - 1
+    A = C[:8]
+    R = [None] + [C[8 * i: 8 * i + 8] for i in range(1, n + 1)]
+    for j in range(5, -1, -1):
+        for i in range(n, 0, -1):
+            t = n * j + i
+            B = _toy_E(bytes(x ^ y for x, y in zip(A, t.to_bytes(8, "big"))) + R[i], inv=True)
+            A = B[:8]
+            R[i] = B[8:]
+    return A, b"".join(R[1:])
+
+
+def ref_kwp_wrap(P):
+    aiv = b"\xA6\x59\x59\xA6" + len(P).to_bytes(4, "big")
+    padded = P + bytes(-len(P) % 8)
+    if len(padded) == 8:
+        return _toy_E(aiv + padded)
+    return ref_kw_wrap(padded, aiv)
+
+
+def keywrap_rows(check, repo, rule="K-pw", prop="C02"):
+    from ..absint import Interp
+    from ..absstate import State
+    mods = {"KW": ("Crypto.Cipher._mode_kw", "KWMode"), "KWP": ("Crypto.Cipher._mode_kwp", "KWPMode")}
+
+    def m_enc(i, base, a, kw, st, node):
+        if a and isinstance(a[0], (bytes, bytearray)) and len(a[0]) == 16:
+            return _toy_E(a[0])
+        i._diverged = i.do_raise("ValueError", st, node)        # ECB refuses anything but whole blocks
+        return UNK
+
+    def m_dec(i, base, a, kw, st, node):
+        if a and isinstance(a[0], (bytes, bytearray)) and len(a[0]) == 16:
+            return _toy_E(a[0], inv=True)
+        i._diverged = i.do_raise("ValueError", st, node)
+        return UNK
+
+    def run(kind, meth, data):
+        mn, cn = mods[kind]
+        mod = repo.module(mn)
+        it = Interp(repo, max_depth=5, method_models={"encrypt": m_enc, "decrypt": m_dec})
+        it.unroll_limit = 2000
+        it.for_limit = 400
+        st = State()
+        me = it.new_obj(st, mod, repo.cls(mod, cn), havoc=False)
+        st.heap[me.ident].update({"_cipher": it.new_obj(st, label="ecb"), "_done": False, "block_size": 16})
+        res = it.run(mod, repo.func(mod, cn + "." + meth), {"plaintext" if meth == "seal" else "ciphertext": data}, self_obj=me, state=st)
+        if res.rejected():
+            return ("raises",) + tuple(sorted(set(res.raise_classes())))
+        r = res.returns()
+        if len(r) != 1 or res.raises() or not isinstance(r[0].value, (bytes, bytearray)):
+            return ("undecided", len(r), tuple(res.raise_classes()))
+        return bytes(r[0].value)
+    wrong = {"KW": [], "KWP": []}
+    n = 0
+    pat = lambda L, s=0: bytes((0x10 + 7 * i + s) & 0xFF for i in range(L))
+    # KW: every whole number of semiblocks 2..6, and the refused lengths
+    for L in (0, 8, 12, 16, 20, 24, 32, 40, 48):
+        P = pat(L)
+        got = run("KW", "seal", P)
+        n += 1
+        if L % 8 or L < 16:
+            if got != ("raises", "ValueError"):
+                wrong["KW"].append("seal of %d bytes: %r" % (L, got))
+            continue
+        want = ref_kw_wrap(P, b"\xA6" * 8)
+        if got != want:
+            wrong["KW"].append("seal(%d bytes) = %s.., RFC 3394 2.2.1 gives %s.." % (L, got.hex()[:24] if isinstance(got, bytes) else got, want.hex()[:24]))
+            continue
+        back = run("KW", "unseal", want)
+        n += 1
+        if back != P:
+            wrong["KW"].append("unseal(seal(%d bytes)) = %r" % (L, back))
+        for pos in sorted(set([0, 7, 8, len(want) // 2, len(want) - 1])):
+            bad = bytearray(want)
+            bad[pos] ^= 0x40
+            r = run("KW", "unseal", bytes(bad))
+            n += 1
+            if r != ("raises", "ValueError"):
+                wrong["KW"].append("unseal with byte %d of %d modified: %r" % (pos, len(want), r if not isinstance(r, bytes) else "accepted"))
+    # a wrapping whose recovered integrity check value differs from A6..A6 in exactly one byte, at each position
+    for k in range(8):
+        iv = bytearray(b"\xA6" * 8)
+        iv[k] ^= 0x10
+        r = run("KW", "unseal", ref_kw_wrap(pat(16, 9), bytes(iv)))
+        n += 1
+        if r != ("raises", "ValueError"):
+            wrong["KW"].append("unseal of a wrapping whose ICV differs in byte %d only: %s" % (k, "accepted" if isinstance(r, bytes) else r))
+    for L in (0, 8, 16, 20, 23):
+        r = run("KW", "unseal", pat(L, 3))
+        n += 1
+        if r != ("raises", "ValueError"):
+            wrong["KW"].append("unseal of %d bytes: %r" % (L, r))
+    # KWP: every plaintext length 1..25 and 31..33 (single-block case for 1..8, padding 0..7), refused lengths
+    for L in list(range(0, 26)) + [31, 32, 33]:
+        P = pat(L, 1)
+        got = run("KWP", "seal", P)
+        n += 1
+        if L == 0:
+            if got != ("raises", "ValueError"):
+                wrong["KWP"].append("seal of 0 bytes: %r" % (got,))
+            continue
+        want = ref_kwp_wrap(P)
+        if got != want:
+            wrong["KWP"].append("seal(%d bytes) = %s.., RFC 5649 4.1 gives %s.." % (L, got.hex()[:24] if isinstance(got, bytes) else got, want.hex()[:24]))
+            continue
+        back = run("KWP", "unseal", want)
+        n += 1
+        if back != P:
+            wrong["KWP"].append("unseal(seal(%d bytes)) = %r" % (L, back))
+        for pos in sorted(set([0, 4, 8, len(want) - 1])):
+            bad = bytearray(want)
+            bad[pos] ^= 0x01
+            r = run("KWP", "unseal", bytes(bad))
+            n += 1
+            if r != ("raises", "ValueError"):
+                wrong["KWP"].append("unseal with byte %d of %d modified: %r" % (pos, len(want), r if not isinstance(r, bytes) else "accepted"))
+    # KWP unseal: the checks on the recovered AIV and padding (RFC 5649 4.2 step 3), each violated alone
+    def wrap_raw(aiv, padded):
+        return _toy_E(aiv + padded) if len(padded) == 8 else ref_kw_wrap(padded, aiv)
+    for what, aiv, padded in (("MLI larger than the data", b"\xA6\x59\x59\xA6" + (17).to_bytes(4, "big"), pat(16)),
+                              ("MLI 8 bytes too small", b"\xA6\x59\x59\xA6" + (8).to_bytes(4, "big"), pat(16)),
+                              ("MLI 0 with one block", b"\xA6\x59\x59\xA6" + (0).to_bytes(4, "big"), bytes(8)),
+                              ("non-zero padding byte", b"\xA6\x59\x59\xA6" + (13).to_bytes(4, "big"), pat(13) + b"\x00\x01\x00"),
+                              ("wrong constant", b"\xA6\x59\x59\xA7" + (16).to_bytes(4, "big"), pat(16)),
+                              ("KW constant instead of the KWP one", b"\xA6" * 8, pat(16)),
+                              ("MLI with the top bit set", b"\xA6\x59\x59\xA6" + (0x80000010).to_bytes(4, "big"), pat(16))):
+        r = run("KWP", "unseal", wrap_raw(aiv, padded))
+        n += 1
+        if r != ("raises", "ValueError"):
+            wrong["KWP"].append("unseal of a wrapping with %s: %r" % (what, "accepted: " + r.hex() if isinstance(r, bytes) else r))
+    for L in (0, 8, 12, 15):
+        r = run("KWP", "unseal", pat(L, 5))
+        n += 1
+        if r != ("raises", "ValueError"):
+            wrong["KWP"].append("unseal of %d bytes: %r" % (L, r))
+    for kind, cite in (("KW", "SP 800-38F 6.2 / RFC 3394: C = W(A6A6A6A6A6A6A6A6 || P), 6(n-1) steps, t = n*j + i; unwrap checks the whole ICV"),
+                       ("KWP", "RFC 5649: AIV = A65959A6 || MLI, zero padding to 8 bytes, a single ECB block when the padded key is 8 bytes; unwrap checks constant, MLI range and padding bytes")):
+        mn, cn = mods[kind]
+        mod = repo.module(mn)
+        check.ob(rule, "%s|%s.bytes" % (rule, kind.lower()), not wrong[kind], mod.path, repo.func(mod, cn + ".seal").lineno,
+                 extracted=("%d rows differ: " % len(wrong[kind]) + "; ".join(wrong[kind][:3])) if wrong[kind] else "seal byte for byte as the reference on every length of the table, unseal inverts it and refuses every modified or malformed wrapping",
+                 expected=cite)
+    check.count("keywrap_rows", n)
